@@ -27,14 +27,14 @@ func checkC03(r *Run) {
 	r.Rule("R9", "no typed nil: a node pointer that may be nil is never converted to an AST interface (return, assignment, argument, literal field, append) in the parser", 10)
 	r.Rule("R10", "printers are linear: on every path of an AST printer each child expression is printed at most once (the parser prints every statement; a double print costs 2^depth)", 30)
 	lx := analyseLexerArms(r.W)
-	lexerEOFRule(r, "R1", lx)
+	lexerEOFRuleSSA(r, "R1")
 	parserLoopsRule(r, "R2")
 	recursionProgressRule(r, "R3")
 	expectPeekIdiomRule(r, "R4")
 	nilSafetyRule(r, "R5")
 	otherPanicsRule(r, "R6", lx)
 	errorsAreValuesRule(r, "R7")
-	cursorInvariantRule(r, "R8", lx)
+	cursorInvariantRuleSSA(r, "R8")
 	typedNilRule(r, "R9")
 	linearPrintersRule(r, "R10")
 }
@@ -863,19 +863,40 @@ func indexDischarged(w *World, info *types.Info, f *FuncInfo, ix *ast.IndexExpr,
 			if f.Obj == m.readChar.Obj {
 				return "guarded by the end-of-input branch (R8)"
 			}
-			// peek: `if readPosition >= len(input) { return 0 }` precedes
-			guarded := false
-			for _, st := range f.Decl.Body.List {
-				if ifs, ok := st.(*ast.IfStmt); ok && ifs.Pos() < ix.Pos() {
-					if be, ok := unparen(ifs.Cond).(*ast.BinaryExpr); ok && be.Op == token.GEQ && sameObjExpr(info, be.X, ix.Index) {
-						if len(ifs.Body.List) == 1 {
-							if _, isRet := ifs.Body.List[0].(*ast.ReturnStmt); isRet {
-								guarded = true
-							}
-						}
+			// peek: the index is known to be < len(input): `if idx >= len(input) { return 0 }` precedes, or the
+			// index expression sits inside `if idx < len(input) { ... }`
+			isLenInput := func(e ast.Expr) bool {
+				c, ok := unparen(e).(*ast.CallExpr)
+				if !ok || builtinName(info, c) != "len" || len(c.Args) != 1 {
+					return false
+				}
+				_, fld := fieldOf(info, c.Args[0])
+				return fld == m.input
+			}
+			guarded := w.dominatedBy(info, ix, nil, func(cond ast.Expr, truth bool) bool {
+				be, ok := unparen(cond).(*ast.BinaryExpr)
+				if !ok {
+					return false
+				}
+				x, y, op := be.X, be.Y, be.Op
+				if isLenInput(x) {
+					x, y = y, x
+					switch op {
+					case token.LSS:
+						op = token.GTR
+					case token.GTR:
+						op = token.LSS
+					case token.LEQ:
+						op = token.GEQ
+					case token.GEQ:
+						op = token.LEQ
 					}
 				}
-			}
+				if !isLenInput(y) || !sameObjExpr(info, x, ix.Index) {
+					return false
+				}
+				return (op == token.LSS && truth) || (op == token.GEQ && !truth)
+			})
 			if guarded {
 				return "guarded by 'index >= len(input) -> return'"
 			}
